@@ -13,6 +13,9 @@ def run(ctx):
     RH.marker_provenance(ctx, "R09.f")
     RH.split_nonempty(ctx, "R09.g")
     RK.sibling_agreement(ctx, "R15.b", "R15.c", stages_too=False)
+    from . import C20 as RC20
+    RC20.buffer_rules(ctx, "R20.c", None, None)
+    RH.dividers_writers(ctx, "R09.h")
     return info("R09.a: abstract walk of every loop-iteration / exit path of the title builder: markers are emitted as left, exactly "
                 "one source slice, right, every path ends closed; R09.b: spans are word.slice.0 + subslice.{0,1}, the match is "
                 "looked up by word offset, every WordMatch is built with subslice.0 = 0; R09.c: empty query passes, no match => "
